@@ -593,8 +593,21 @@ func bvCmp(op string, a, b *Term) *Term {
 	if op == "bvule" && a.Op == "bvconst" && a.Val == 0 {
 		return True
 	}
-	if op == "bvult" && b.Op == "bvconst" && b.Val == 0 {
-		return False
+	// bounds known from type invariants (interval reasoning)
+	{
+		ua, oka := ub(a)
+		ubb, okb := ub(b)
+		la, lbv := lb(a), lb(b)
+		unsignedOK := op == "bvult" || op == "bvule" || (oka && okb && ua < 1<<(uint(w)-1) && ubb < 1<<(uint(w)-1))
+		if unsignedOK {
+			strict := op == "bvult" || op == "bvslt"
+			if oka && (strict && ua < lbv || !strict && ua <= lbv) {
+				return True
+			}
+			if okb && (strict && la >= ubb || !strict && la > ubb) {
+				return False
+			}
+		}
 	}
 	return mk(op, SBool, a, b)
 }
@@ -678,6 +691,15 @@ func distinctConsts(a, b *Term) bool {
 	}
 	if a.IsConst() && b.IsConst() {
 		return a.Val != b.Val
+	}
+	// disjoint intervals
+	if a.Sort.IsBV() {
+		if ua, ok := ub(a); ok && ua < lb(b) {
+			return true
+		}
+		if ubb, ok := ub(b); ok && ubb < lb(a) {
+			return true
+		}
 	}
 	// x + c1 vs x + c2 on bit-vectors
 	if a.Sort.IsBV() {
@@ -875,13 +897,13 @@ func FPOp(op string, s Sort, args ...*Term) *Term {
 // ---- printing ----
 
 type Printer struct {
-	sb       strings.Builder
-	done     map[int]bool
-	decls    map[string]Sort   // free vars
-	funs     map[string]string // uninterpreted function declarations
-	declOrd  []string
-	funOrd   []string
-	noLambda bool
+	sb        strings.Builder
+	done      map[int]bool
+	decls     map[string]Sort   // free vars
+	funs      map[string]string // uninterpreted function declarations
+	declOrd   []string
+	funOrd    []string
+	noLambda  bool
 	sawLambda bool
 	lamAxioms []string
 }
